@@ -534,4 +534,31 @@ class _Gen(object):
                     st['fault'] = {'kind': 'F2', 'u': u3, 'exc': self.f2_exc}
                 self.nfault += 1
             steps.append(st)
+        self.container_conversions(steps)
         return {'config': self.cfg, 'steps': steps}
+
+    def container_conversions(self, steps):
+        """ctx.matrix(A) with A a matrix owned by another mp-type context (seeded change c38j: the entries must
+        come out as the receiver's own numbers of the same values).  Drawn from a stream of its own, derived from
+        the final state of the main one without drawing from it, so that the main stream is what it was before
+        these steps existed."""
+        import hashlib, random
+        r2 = random.Random(int.from_bytes(hashlib.sha256(repr(self.rng.getstate()).encode()).digest()[:8], 'big'))
+        mps = [a for a in ('mp', 'c1', 'c2') if a in self.created and a in self.actors]
+        if len(mps) < 2 or r2.random() >= 0.4:
+            return
+        born = dict((s['actor'], i) for i, s in enumerate(steps) if s.get('kind') == 'clone')
+        for _ in range(r2.randint(1, 3)):
+            actor = r2.choice(mps)
+            owner = r2.choice([a for a in mps if a != actor])
+            n, m = r2.randint(1, 3), r2.randint(1, 3)
+            rows = [[I(r2.randint(-9, 9)) if r2.random() < 0.5 else catalogue.mpf_spec(r2, -6, 6, maxwidth=200)
+                     for _j in range(m)] for _i in range(n)]
+            st = {'kind': 'call', 'actor': actor, 'op': 'f:matrix', 'key': 'matrix_from_matrix', 'fam': 'K', 'id': self.new_id(),
+                  'args': [{'t': 'matrix', 'v': rows, 'owner': owner}], 'tol': 2, 'exact': True, 'typed': True, 'foreign': True}
+            if actor in ('c1', 'c2'):
+                st['clone_vs_mp'] = True
+            lo = max(born.get(actor, -1), born.get(owner, -1)) + 1
+            pos = r2.randint(lo, len(steps))
+            steps.insert(pos, st)
+            born = dict((s['actor'], i) for i, s in enumerate(steps) if s.get('kind') == 'clone')
